@@ -609,6 +609,10 @@ func paramNames(sig *types.Signature, fn *ssa.Function, invoke bool) []string {
 }
 
 func (fr *Frame) applyContract(st *State, ctr *Contract, name string, sig *types.Signature, fn *ssa.Function, args []Value, invoke bool) []Outcome {
+	if fr.v.appliedCtr == nil {
+		fr.v.appliedCtr = map[*Contract]bool{}
+	}
+	fr.v.appliedCtr[ctr] = true
 	v := fr.v
 	ctr.used = true
 	v.usedContracts[ctr.Kind+" "+ctr.Key] = true
